@@ -6,7 +6,7 @@ CLAIM = ('Two real CCoinsViewCache layers (coins.cpp, libstdc++ unordered_map, f
          'population shape, with all coin contents symbolic, each layer answers exactly like its map model after every step, SpendCoin returns the spent coin, Flush/Sync '
          'propagate the child view to the parent and the parent view to the base, and the caches\' own SanityCheck()/Assume() invariants hold.')
 LINK = ['coins.cpp', 'primitives/transaction.cpp', 'script/script.cpp', 'uint256.cpp', 'hash.cpp']
-OPS = dict(ADD=1, ADDOW=2, SPEND=3, GET=4, FLUSH=5, SYNC=6, PFLUSH=7, UNCACHE=8, PADD=9, PSPEND=10, ACCESS=11, PSYNC=12)
+OPS = dict(ADD=1, ADDOW=2, SPEND=3, GET=4, FLUSH=5, SYNC=6, PFLUSH=7, UNCACHE=8, PADD=9, PSPEND=10, ACCESS=11, PSYNC=12, ADDS=13, ADDOWS=14)
 def seq(present, *ops):
     """(entry name, template args): PRESENT, then five (OP, K) pairs"""
     pairs = []; names = []
@@ -22,13 +22,15 @@ QUICK = [
     seq(1, 'ADDOW:0', 'SPEND:0', 'FLUSH', 'PFLUSH'),               # overwrite then spend: base coin must end spent
     seq(3, 'PSPEND:0', 'PSPEND:1', 'PFLUSH'),
     seq(0, 'PADD:0', 'PFLUSH', 'ADDOW:0', 'FLUSH'),
+    seq(0, 'ADDS:0', 'SPEND:0', 'FLUSH', 'GET:0'),                 # same with a 40-byte script: memory-usage accounting (cachedCoinsUsage vs. SanityCheck recomputation) is non-trivial
+    seq(1, 'ADDOWS:0', 'SPEND:0', 'FLUSH', 'PFLUSH'),
 ]
 HARNESSES = [
     H('layers', 'layers.cpp', 'h_layers', link=LINK, entries=QUICK, shadow=['nofmt', 'nopool'], unwind=20, memunwind=112, timeout=600, objbits=11,
       functions=['CCoinsViewCache::FetchCoin/GetCoin/PeekCoin/HaveCoin/AccessCoin/AddCoin/SpendCoin/Uncache/BatchWrite/Flush/Sync/SanityCheck (coins.cpp)', 'CCoinsCacheEntry flag list (coins.h)', 'CoinsViewCacheCursor (coins.h)',
                  'std::unordered_map<COutPoint, CCoinsCacheEntry, SaltedCoinsCacheHasher> (libstdc++ headers; real SipHash-1-3 on concrete keys)'],
       stubs=['PoolAllocator forwards to operator new (ref/nopool shadow of support/allocators/pool.h; PoolResource is C61)', 'tinyformat -> empty strings', 'FastRandomContext/ChaCha20 nondeterministic (unused: deterministic hasher keys)',
-             'assertion_fail -> CBMC assertion', 'std::_Prime_rehash_policy integer model (tool/models/stl_models.cpp)', 'coin scripts are empty'],
+             'assertion_fail -> CBMC assertion', 'std::_Prime_rehash_policy integer model (tool/models/stl_models.cpp)', 'coin scripts are empty except in the ADDS/ADDOWS sequences (40 bytes, first byte OP_1, last byte symbolic)'],
       assumptions=['AddCoin(possible_overwrite=false) is only called when the coin is not visible in that layer (API contract)', 'the parent is not modified behind a child that already cached the key'],
-      bounds='2 keys, 6 operation sequences of <= 5 operations x base population shapes as listed in QUICK; all coin values/heights/coinbase flags symbolic. NOT decided (no verdict within 700 s): every sequence in which the child cache fetches a PRESENT coin from its parent (GetCoin/AccessCoin/SpendCoin of a base coin through two layers) and the FRESH-add + Flush sequences; the node value of std::unordered_map lives in an untyped byte buffer through which constant propagation of symbolic execution is lost, so list walks and script-length loops stop folding'),
+      bounds='2 keys, 8 operation sequences of <= 5 operations x base population shapes as listed in QUICK; all coin values/heights/coinbase flags symbolic. NOT decided (no verdict within 700 s): every sequence in which the child cache fetches a PRESENT coin from its parent (GetCoin/AccessCoin/SpendCoin of a base coin through two layers) and the FRESH-add + Flush sequences; the node value of std::unordered_map lives in an untyped byte buffer through which constant propagation of symbolic execution is lost, so list walks and script-length loops stop folding'),
 ]
